@@ -303,7 +303,7 @@ def putBack (st : DState) (id : String) (slot : CtxSlot) (w : W) (names : List N
   { st with
     regs := w.regs, regPoisoned := w.regPoisoned,
     user := { w.user with ulog := #[] },
-    ctxs := (id, { ctx := w.ctx, poisoned := w.ctxPoisoned, names := slot.names ++ names }) ::
+    ctxs := (id, { ctx := w.ctx, poisoned := w.ctxPoisoned, names := (slot.names ++ names).eraseDups }) ::
       st.ctxs.filter (·.1 != id) }
 
 def takeLog (w : W) : String := "(" ++ " ".intercalate w.user.ulog.toList ++ ")"
@@ -400,19 +400,27 @@ def handle (st : DState) (line : String) : DState × String :=
   | "CTX" =>
     match parseSexp (fld 2) with
     | some (.list bs) =>
-      let step (acc : Option (CtxMap × UState × List Name)) (b : Sexp) : Option (CtxMap × UState × List Name) :=
+      -- the script table is threaded through the fold and never referenced beside it, so that it is extended in
+      -- place (a second live reference would make every `push` copy the whole table)
+      let step (acc : CtxMap × UState × List Name × Bool) (b : Sexp) : CtxMap × UState × List Name × Bool :=
         match acc, b with
-        | some (m, u, ns), .list [.atom h, .atom "v", v] => do
-          let n ← unhex h; let v ← sexpValue v
-          pure ((n, .var v) :: m, u, n :: ns)
-        | some (m, u, ns), .list [.atom h, .atom "f", s] => do
-          let n ← unhex h; let s ← sexpScript s
-          pure ((n, .fn (.user u.scripts.size)) :: m, { u with scripts := u.scripts.push (s, true) }, n :: ns)
-        | _, _ => none
-      match bs.foldl step (some ([], st.user, [])) with
-      | some (m, u, ns) =>
+        | (m, u, ns, true), .list [.atom h, .atom "v", v] =>
+          match unhex h, sexpValue v with
+          | some n, some v => ((n, .var v) :: m, u, n :: ns, true)
+          | _, _ => (m, u, ns, false)
+        | (m, u, ns, true), .list [.atom h, .atom "f", s] =>
+          match unhex h, sexpScript s with
+          | some n, some s =>
+            let id := u.scripts.size
+            ((n, .fn (.user id)) :: m, { u with scripts := u.scripts.push (s, true) }, n :: ns, true)
+          | _, _ => (m, u, ns, false)
+        | (m, u, ns, _), _ => (m, u, ns, false)
+      let user0 := st.user
+      let st := { st with user := {} }
+      match bs.foldl step ([], user0, [], true) with
+      | (m, u, ns, true) =>
         ({ st with user := u, ctxs := (fld 1, { ctx := m, poisoned := false, names := ns }) :: st.ctxs.filter (·.1 != fld 1) }, "OK")
-      | none => (st, "BADREQ")
+      | (_, u, _, false) => ({ st with user := u }, "BADREQ")
     | _ => (st, "BADREQ")
   | "EXEC" | "EXECAST" | "EXECW" =>
     match st.ctxs.lookup (fld 1) with
